@@ -28,7 +28,6 @@ import (
 	"regexp"
 	"runtime"
 	"runtime/debug"
-	"runtime/pprof"
 	"strconv"
 	"strings"
 	"sync"
@@ -136,11 +135,6 @@ func c02Child(args []string) error {
 	}
 	if *stackMB > 0 {
 		debug.SetMaxStack(*stackMB << 20)
-	}
-	if pf := os.Getenv("C02_PROF"); pf != "" {
-		f, _ := os.Create(pf)
-		pprof.StartCPUProfile(f)
-		defer pprof.StopCPUProfile()
 	}
 	if err := c02Init(); err != nil {
 		return err
